@@ -4,8 +4,11 @@
 W=${SWEEP_TREE:-/tmp/sweeprepo}
 cd /verif
 PREFIXES="${*:-C}"
+# SWEEP_LIST=<file of seed ids> restricts the sweep to those; VERIF_MAX_REPORT=2 (default here) keeps the per-seed replays short
+export VERIF_MAX_REPORT=${VERIF_MAX_REPORT:-2}
 for d in seeded/C*/; do
   ok=0; for p in $PREFIXES; do case "$(basename $d)" in $p*) ok=1;; esac; done; [ $ok = 1 ] || continue
+  if [ -n "${SWEEP_LIST:-}" ]; then grep -qx "$(basename $d)" "$SWEEP_LIST" || continue; fi
   sid=$(basename $d); c=${sid%%-*}
   git -C $W checkout -q -- .
   ( cd $W && PYTHONPATH=$W timeout 120 /venv/bin/python /verif/$d/demo.py >/dev/null 2>&1 ); dc=$?
